@@ -29,6 +29,9 @@ type Opts struct {
 	// Shuffle, when non-zero, permutes the option list handed to Parse (options
 	// are independent of each other; their order must not matter).
 	Shuffle uint64 `json:"shuffle,omitempty"`
+	// UseFile: the input is written to a file below the working directory and
+	// parsed with ParseFile (the name then has a directory part).
+	UseFile bool `json:"use_file,omitempty"`
 	// Filename given to Parse; "" stands for "f.txt", "<empty>" for the empty name.
 	Filename  string      `json:"filename,omitempty"`
 	InitState [][2]string `json:"init_state,omitempty"`
@@ -103,6 +106,9 @@ func ShuffleOpts(n int, seed uint64, swap func(i, j int)) {
 
 // FileName is the file name argument of the Parse call.
 func (o *Opts) FileName() string {
+	if o.UseFile {
+		return "pf dir/sub/in put.txt"
+	}
 	switch o.Filename {
 	case "":
 		return "f.txt"
